@@ -1139,6 +1139,8 @@ def call_method(ex, st, obj, name, args, kwargs, node):
         if name in ('astype', 'cpu', 'numpy', 'detach', 'contiguous'):
             return obj
         raise Unsupported('array method %s' % name)
+    if isinstance(obj, DictVal) and name == 'keys' and not args and getattr(obj, 'keys_arr', None) is None:
+        return SetVal(lambda x: obj.has(x))           # membership view of the keys (`k in d.keys()` is `k in d`)
     if isinstance(obj, DictVal) and name == 'get' and 1 <= len(args) <= 2:
         # d.get(k, default) == d[k] if k in d else default
         k_ = args[0]
